@@ -9,6 +9,8 @@ import Rl.Editor
 import Rl.Spec.Doc
 import Rl.Lemmas.Keymap
 import Rl.Lemmas.KeymapVi
+import Rl.Lemmas.ExecRefines
+import Rl.Lemmas.EditorFrame
 import Rl.Lemmas.LineBuffer
 import Rl.Lemmas.LineBufferSafe
 import Rl.Lemmas.EditorM
@@ -655,6 +657,109 @@ theorem C01_custom_seq_binding_fallback (cfg : EdCfg) (fuel : Nat) (k1 k2 : KeyE
   · intro hf hnd
     simp [common.fallback, EM.bind_apply, h2 hf hnd]
 
+/-! ### C01_execute_refines — executing the denoted command has the documented effect
+
+  `Want.holds w l`: the text and cursor components `Act.apply` judges are those of the line `l`
+  (`holdsText`: the text component).  All theorems are `wp` statements with the exit condition
+  `False`: from the stated hypotheses the command returns.  Lemmas: Rl/Lemmas/ExecRefines.lean
+  (on top of C03's totality and C04's target / span theorems). -/
+
+/-- **Motions**: every movement except `^` and the `BeforeEnd` word targets (known findings
+    F-C04-vi-first-print, F-C04-vi-e-count): the text is untouched and the cursor is on the
+    documented target, or stays where the documentation has no target. -/
+theorem C01_execute_refines_move (S : Segmenter) (U : UData) (cfg : EdCfg) (hS : S.Stable) (mode : Mode)
+    (m : Movement) (s : Ed) (hwf : WF s.line) (hm : m ≠ .viFirstPrint) (hbe : ∀ n w, m ≠ .forwardWord n .beforeEnd w) :
+    wp (execute S U cfg (.move m)) (Refined S U (.move m) mode s) (fun _ _ => False) s :=
+  execute_move_refines S U cfg hS mode m s hwf hm hbe
+
+/-- **Kills** (incl. the character deletes C-d, C-h, `x`, `X`): every movement except `^`: exactly
+    the documented span is removed and the cursor is at its start; with nothing to kill the text is
+    unchanged, and so is the cursor for the character / word / line-end / line-start / whole-line /
+    buffer kills and in an empty buffer (`KillCaveat`: only for `dj` `dk` and char-search kills with
+    nothing to kill is the cursor claim conditional). -/
+theorem C01_execute_refines_kill (S : Segmenter) (U : UData) (cfg : EdCfg) (hS : S.Stable) (hnl : S.NlAlone)
+    (hnp : cfg.hinterPanicAt = none) (mode : Mode) (m : Movement) (s : Ed) (hwf : WF s.line) (hr : RingOK s.ring)
+    (hm : m ≠ .viFirstPrint) :
+    wp (execute S U cfg (.kill m)) (RefinedKill S U (.kill m) mode m s) (fun _ _ => False) s :=
+  execute_kill_refines S U cfg hS hnl hnp mode m s hwf hr hm
+
+/-- **Change** (vi `c`+motion, `s`, `S`, `C`): the same removal. -/
+theorem C01_execute_refines_change (S : Segmenter) (U : UData) (cfg : EdCfg) (hS : S.Stable) (hnl : S.NlAlone)
+    (hnp : cfg.hinterPanicAt = none) (mode : Mode) (m : Movement) (s : Ed) (hwf : WF s.line) (hr : RingOK s.ring)
+    (hm : m ≠ .viFirstPrint) :
+    wp (execute S U cfg (.replace m none)) (RefinedKill S U (.change m) mode m s) (fun _ _ => False) s :=
+  execute_change_refines S U cfg hS hnl hnp mode m s hwf hr hm
+
+/-- **Yank over a movement** (vi `y`+motion): the line is not touched. -/
+theorem C01_execute_refines_yank (S : Segmenter) (U : UData) (cfg : EdCfg) (mode : Mode) (m : Movement) (s : Ed)
+    (hwf : WF s.line) (hr : RingOK s.ring) :
+    wp (execute S U cfg (.viYankTo m))
+      (fun st s' => st = .proceed ∧ s'.line = s.line ∧
+        ((Act.yankOnly m).apply S U mode s.line.buf s.line.pos).holds s'.line) (fun _ _ => False) s :=
+  execute_yank_refines S U cfg mode m s hwf hr
+
+/-- **Self-insert with a count**: `n` copies at the cursor, the cursor after them. -/
+theorem C01_execute_refines_insert (S : Segmenter) (U : UData) (cfg : EdCfg) (hnp : cfg.hinterPanicAt = none)
+    (mode : Mode) (n : Nat) (c : Char) (s : Ed) (hwf : WF s.line) (hg : s.line.canGrow = true) :
+    wp (execute S U cfg (.selfInsert n c)) (Refined S U (.insert n c) mode s) (fun _ _ => False) s :=
+  execute_insert_refines S U cfg hnp mode n c s hwf hg
+
+/-- **Summary over `Act`** (`Covered`: insert, move, kill, change, yank, the vi mode switches, no-op):
+    executing `a.toCmd` returns with status `proceed` and the line `Act.apply` documents. -/
+theorem C01_execute_refines (S : Segmenter) (U : UData) (cfg : EdCfg) (hS : S.Stable) (hnl : S.NlAlone)
+    (hnp : cfg.hinterPanicAt = none) (mode : Mode) (a : Act) (c : Cmd) (hc : a.toCmd = some c) (hcov : Covered a)
+    (s : Ed) (hwf : WF s.line) (hg : s.line.canGrow = true) (hr : RingOK s.ring) :
+    wp (execute S U cfg c) (RefinedAct S U a mode s) (fun _ _ => False) s :=
+  execute_refines S U cfg hS hnl hnp mode a c hc hcov s hwf hg hr
+
+/-! ### C01_key_to_effect — from the decoded key to the effect on (text, cursor) -/
+
+/-- emacs mode: a key of the README tables, the pending count and direction: reading it through the
+    keymap and executing the result has the effect `Act.apply` documents for the resolved action. -/
+theorem C01_key_to_effect_emacs (S : Segmenter) (U : UData) (cfg : EdCfg) (hvi : cfg.vi = false)
+    (hb : cfg.binds = []) (hS : S.Stable) (hnl : S.NlAlone) (hnp : cfg.hinterPanicAt = none)
+    (fuel : Nat) (s : Ed) (hwf : WF s.line) (hg : s.line.canGrow = true) (hrg : RingOK s.ring)
+    (e : KeyEvent × DocAction) (he : e ∈ table .emacs) (a : Act) (c : Cmd)
+    (ha : a = e.2.resolve (countOf s.inp.numArgs).1 (countOf s.inp.numArgs).2 s.line.buf.isEmpty false)
+    (hc : a.toCmd = some c) (hcov : Covered a)
+    (hr : ¬ (e.1 = key .right ∧ s.hint.isSome = true ∧ s.line.pos = blen s.line.buf)) :
+    wp (do let cmd ← emacs S U cfg fuel e.1; execute S U cfg cmd) (RefinedAct S U a .emacs s) (fun _ _ => False) s := by
+  subst ha
+  simp only [table, List.mem_append] at he
+  obtain ⟨s1, h1, h2⟩ : ∃ s', emacs S U cfg fuel e.1 s = .ok (c, s') ∧ s'.line = s.line := by
+    rcases he with he | he
+    · exact C01_binding_table_emacs S U cfg hvi hb fuel s e he c hc hr
+    · exact C01_binding_table_emacs_common S U cfg hvi hb fuel s e he c hc hr
+  have hk := (Ed.core_eq ((keeps_emacs S U cfg fuel e.1).ok h1)).2.2.2.1
+  exact key_to_effect S U cfg hS hnl hnp .emacs _ c hc hcov s s1 hwf hg hrg h1 h2 hk
+
+/-- vi command mode -/
+theorem C01_key_to_effect_vi_command (S : Segmenter) (U : UData) (cfg : EdCfg)
+    (hb : cfg.binds = []) (hS : S.Stable) (hnl : S.NlAlone) (hnp : cfg.hinterPanicAt = none)
+    (fuel : Nat) (s : Ed) (h0 : 0 ≤ s.inp.numArgs) (hwf : WF s.line) (hg : s.line.canGrow = true) (hrg : RingOK s.ring)
+    (e : KeyEvent × DocAction) (he : e ∈ table .viCommand) (a : Act) (c : Cmd)
+    (ha : a = e.2.resolve (countOf s.inp.numArgs).1 true s.line.buf.isEmpty true)
+    (hc : a.toCmd = some c) (hcov : Covered a) :
+    wp (do let cmd ← viCommand S U cfg fuel e.1; execute S U cfg cmd) (RefinedAct S U a .viCommand s) (fun _ _ => False) s := by
+  subst ha
+  obtain ⟨s1, h1, h2⟩ := C01_binding_table_vi_command S U cfg hb fuel s h0 e he c hc
+  have hk := (Ed.coreNC_eq ((keeps_viCommand S U cfg fuel e.1).ok h1)).2.2.1
+  exact key_to_effect S U cfg hS hnl hnp .viCommand _ c hc hcov s s1 hwf hg hrg h1 h2 hk
+
+/-- vi insert mode -/
+theorem C01_key_to_effect_vi_insert (S : Segmenter) (U : UData) (cfg : EdCfg)
+    (hb : cfg.binds = []) (hS : S.Stable) (hnl : S.NlAlone) (hnp : cfg.hinterPanicAt = none)
+    (fuel : Nat) (s : Ed) (hwf : WF s.line) (hg : s.line.canGrow = true) (hrg : RingOK s.ring)
+    (e : KeyEvent × DocAction) (he : e ∈ table .viInsert) (a : Act) (c : Cmd)
+    (ha : a = e.2.resolve 1 true s.line.buf.isEmpty true)
+    (hc : a.toCmd = some c) (hcov : Covered a)
+    (hr : ¬ (e.1 = key .right ∧ s.hint.isSome = true ∧ s.line.pos = blen s.line.buf)) :
+    wp (do let cmd ← viInsert S U cfg fuel e.1; execute S U cfg cmd) (RefinedAct S U a .viInsert s) (fun _ _ => False) s := by
+  subst ha
+  obtain ⟨s1, h1, h2⟩ := C01_binding_table_vi_insert S U cfg hb fuel s e he c hc hr
+  have hk := (Ed.coreNC_eq ((keeps_viInsert S U cfg fuel e.1).ok h1)).2.2.1
+  exact key_to_effect S U cfg hS hnl hnp .viInsert _ c hc hcov s s1 hwf hg hrg h1 h2 hk
+
 /-! ### non-vacuity -/
 
 /-- the vi tables do denote commands: `x` is `Kill(ForwardChar n)`, `C` is `Replace(EndOfLine)`,
@@ -667,3 +772,13 @@ example : ((lookup (table .viCommand) (plain 'x')).map (fun a => (a.resolve 3 tr
     ∧ docMotion (.move (.wordRight .start .vi)) 6 true none none = some (.forwardWord 6 .afterEnd .vi)
     ∧ docMotion (.move (.wordRight .beforeEnd .big)) 2 false none none = some (.forwardWord 2 .afterEnd .big) := by
   decide
+
+/-- the refinement theorems are not vacuous: `M-DEL` on `ab cd|` is documented to leave `ab |`, `M-f`
+    from the start goes to 2; the action is covered and outside the cursor caveat (charSeg is stable
+    and keeps the line break alone: `charSeg_stable`, `charSeg_nlAlone`) -/
+example : ((Act.kill (.backwardWord 1 .emacs)).apply charSeg C04_exU .emacs "ab cd".toList 5).text = some "ab ".toList
+    ∧ ((Act.kill (.backwardWord 1 .emacs)).apply charSeg C04_exU .emacs "ab cd".toList 5).pos = some 3
+    ∧ ((Act.move (.forwardWord 1 .afterEnd .emacs)).apply charSeg C04_exU .emacs "ab cd".toList 0).pos = some 2
+    ∧ Covered (Act.kill (.backwardWord 1 .emacs)) ∧ ¬ KillCaveat charSeg C04_exU "ab cd".toList 5 (.backwardWord 1 .emacs) := by
+  refine ⟨by decide, by decide, by decide, by simp [Covered], ?_⟩
+  intro h; exact h.2.1 trivial
